@@ -40,11 +40,13 @@ CLAIMS = {
         'the input. That results are sub-slices (pointer identity) and that 0 heap allocations happen is OBSERVED by the harness (counting global allocator, inputs to 64 kB): a '
         'value-level Gallina model has no heap, so that half is test-level (partial).',
    note=TB + 'Allocation behaviour is runtime behaviour the model cannot exhibit.'),
- 'C06': dict(cat='proof', tech='Coq refinement proof of one branch of resolve to an RFC 5.2.2 spec + independent RFC oracle on every implementation output + model correspondence',
-   text='Spec coq/Rfc.v (rfc_target, rds, merge). Theorem C06_empty_path_branch_partial: for ALL well-formed base and reference with no scheme, no authority and an empty path the model of '
-        'resolve returns compose (rfc_target base ref) (component selection and query inheritance), without panic; C06_rds_normal / C06_rds_plain on the 5.2.4 walk. The four branches that '
-        'remove dot segments are executed on the implementation and the extracted model (all three entry points, both families) and every output is judged by an independent '
-        'transcription of RFC 3986 5.2 (tools/spec.py): partial. Known finding K_R2.',
+ 'C06': dict(cat='proof', tech='Coq refinement proof of four of the five branches of resolve to an RFC 5.2.2 spec + independent RFC oracle on every implementation output + model correspondence',
+   text='Spec coq/Rfc.v (rfc_target, rds, merge). Four of the five branches of RFC 3986 5.2.2 are proved for ALL well-formed base and reference: C06_empty_path_branch_partial (no scheme, '
+        'no authority, empty path: component selection and query inheritance) and C06_no_merge_branches_exact / C06_no_merge_branches_partial (reference with a scheme, an authority or an '
+        'absolute path: the index-level model -- set_scheme, set_authority, in-place normalize through the path handle, closing push -- returns, without panic, compose of the RFC target '
+        'whose path is the text-level function rds_impl, and rds_impl = 5.2.4 under the exact condition rds_exact, implied by "no empty segment except the last" (C06_rds_exact_simple); '
+        'C06_K_R2_witness shows the condition cannot be dropped (recorded class K_R2)); C06_rds_normal / C06_rds_plain on the 5.2.4 walk. The merge branch is executed on the implementation '
+        'and the extracted model (all three entry points, both families) and every output of every branch is judged by an independent transcription of RFC 3986 5.2 (tools/spec.py): partial.',
    note=TB + 'Oracle tools/spec.py is an independent reading of the RFC; interpretation I1/I8 (DESIGN section 8).'),
  'C07': dict(cat='proof', tech='Coq proof: the derive-style comparison model factors through a canonical form built from total-order combinators; decode totality by reflection; correspondence check',
    text='Theorems C07_eq_is_canon_equality, C07_reflexive/_symmetric/_transitive (== on references is equality of canonical forms (scheme literal, decoded user info/host, literal '
